@@ -56,19 +56,6 @@ theorem evalArgs_le_on {ρ1 ρ2 : Env} : ∀ (es : Exprs) (vs : List Val), LeOn 
           intro p hp; simp only [exprsRefs, List.mem_append]; exact Or.inr hp)) h2
         rw [e1, e2]; exact h
 
-/-- `[requires]` expressions of the fragment used for completeness mention only `this` and
-parameters (the static fuel bound `need` does not follow references inside validators). -/
-def reqLocalField (f : Field) : Bool :=
-  match f.kind with
-  | .phys _ _ (.scalar _ _ req) _ => (optRefs req).isEmpty
-  | .phys _ _ (.array (.scalar _ _ req) _) _ => (optRefs req).isEmpty
-  | .virt _ req => (optRefs req).isEmpty
-  | _ => true
-
-def reqLocal (sd : StructDef) : Bool := sd.fields.all reqLocalField
-
-def reqLocalModule (m : Module) : Bool := m.structs.all reqLocal
-
 theorem reqLocal_of_find {m : Module} (hm : reqLocalModule m = true) {name : String} {sd : StructDef}
     (h : m.find name = some sd) : reqLocal sd = true := by
   unfold reqLocalModule at hm
